@@ -145,6 +145,17 @@ def gen_run(rng, cfg):
             op["items"] = items
             ops.append(op)
         a = {"reuse": rng.random() < 0.25, "ops": ops, "kind": kind}
+        if kind in ("parse", "mixed", "roundtrip") and not long_inputs and not deep and rng.random() < 0.15:
+            # a "recovering" actor: one long-lived parser, a call that fails with state
+            # in flight, then further calls on the same parser (solo baseline does the same)
+            a["reuse"] = True
+            bad = dict(ops[0])
+            bad["op"] = "parse"
+            if rng.random() < 0.5:
+                bad["items"], bad["mut"] = W.mutate_items(rng, list(ops[0]["items"]), rng.choice(["trunc", "trunc", "illegal", "bracket"]))
+            else:
+                bad["items"], bad["mut"] = list(rng.choice(W.FAILING_SNIPPETS)), "failing snippet"
+            a["ops"] = [bad] + ops
         actors.append(a)
     # crash-one: an asynchronous abort inside one actor while the others go on
     if faulty and rng.random() < 0.6:
